@@ -6,7 +6,8 @@ Along the meridian of the point, parametrised by `τ = tan(latitude)`, the half-
 the meridian (`R e`) at `τ e = −A e / Z e`.  From the four facts
   F1 (a meeting point is in the closed polygon), F2 (two edges do not meet the meridian at the same point),
   F3 (a point of an edge's great circle that is in the closed polygon is on the edge) and F4 (no pole inside)
-the number of meeting points strictly south of the point is odd iff the point is in all the open half-spaces.
+the number of meeting points strictly south of a point that is not on the boundary is odd iff the point is in all the
+open half-spaces.
 -/
 import HpxVerif.Lemmas.PolyReal2
 
@@ -82,7 +83,7 @@ theorem convex_count (A Z : ε → ℝ) (R : ε → Prop) (E : List ε)
     (F2 : E.Pairwise (fun e e' => R e → R e' → 0 < A e' + (-A e / Z e) * Z e' ∧ 0 < A e + (-A e' / Z e') * Z e))
     (F3 : ∀ e ∈ E, Z e ≠ 0 → (∀ e' ∈ E, 0 ≤ A e' + (-A e / Z e) * Z e') → R e)
     (F4 : (∃ e ∈ E, 0 < Z e) ∧ (∃ e ∈ E, Z e < 0))
-    (τ : ℝ) (hgen : ∀ e ∈ E, A e + τ * Z e ≠ 0) :
+    (τ : ℝ) (hnb : (∀ e ∈ E, 0 ≤ A e + τ * Z e) → ∀ e ∈ E, 0 < A e + τ * Z e) :
     Odd (E.countP (fun e => decide (R e ∧ -A e / Z e < τ))) ↔ ∀ e ∈ E, 0 < A e + τ * Z e := by
   set t : ε → ℝ := fun e => -A e / Z e with ht
   -- split according to the sign of `Z`
@@ -165,9 +166,9 @@ theorem convex_count (A Z : ε → ℝ) (R : ε → Prop) (E : List ε)
   · -- odd ⇒ inside; by contraposition
     intro hodd
     by_contra hout
-    push Not at hout
-    obtain ⟨j, hj, hjneg⟩ := hout
-    have hjlt : A j + τ * Z j < 0 := lt_of_le_of_ne hjneg (hgen j hj)
+    have hout2 : ¬ ∀ e ∈ E, 0 ≤ A e + τ * Z e := fun h => hout (hnb h)
+    push Not at hout2
+    obtain ⟨j, hj, hjlt⟩ := hout2
     -- both kinds exist or none
     have hiff : (0 < E.countP Pp) ↔ (0 < E.countP Pm) := by
       rw [List.countP_pos_iff, List.countP_pos_iff]
@@ -307,7 +308,8 @@ open Classical in
       end points of one of them (strict convexity); `C3` each end point of an edge is strictly inside the half-space of a
       neighbouring edge that contains the other end point;
     * `F4` neither pole is in the closed polygon;
-    * `p` is not a pole, its meridian passes through no vertex, and `p` is on no edge's great circle. -/
+    * `p` is not a pole, its meridian passes through no vertex, and `p` is not on the boundary of the polygon
+      (`hnb`: if it is in all the closed half-spaces then it is in all the open ones). -/
 theorem count_convex (E : List (Coo ℝ × Coo ℝ)) (o : ℝ) (ho : o = 1 ∨ o = -1)
     (hv : ∀ e ∈ E, (e.1.Valid ∧ e.1.NonPole) ∧ (e.2.Valid ∧ e.2.NonPole))
     (C1 : ∀ e ∈ E, ∀ e' ∈ E, 0 ≤ o * dot e.1 (cross e'.1 e'.2) ∧ 0 ≤ o * dot e.2 (cross e'.1 e'.2))
@@ -318,7 +320,7 @@ theorem count_convex (E : List (Coo ℝ × Coo ℝ)) (o : ℝ) (ho : o = 1 ∨ o
       (∃ e' ∈ E, 0 < o * dot e.2 (cross e'.1 e'.2) ∧ dot e.1 (cross e'.1 e'.2) = 0))
     (F4 : (∃ e ∈ E, 0 < o * (cross e.1 e.2).2.2) ∧ (∃ e ∈ E, o * (cross e.1 e.2).2.2 < 0))
     (p : Coo ℝ) (hp : p.Valid) (hpn : p.NonPole) (hgen : ∀ e ∈ E, p.lon ≠ e.1.lon ∧ p.lon ≠ e.2.lon)
-    (hgc : ∀ e ∈ E, dot p (cross e.1 e.2) ≠ 0) :
+    (hnb : (∀ e ∈ E, 0 ≤ o * dot p (cross e.1 e.2)) → ∀ e ∈ E, 0 < o * dot p (cross e.1 e.2)) :
     Odd (E.countP (fun e => decide (CrossesSouth e.1 e.2 p))) ↔ ∀ e ∈ E, 0 < o * dot p (cross e.1 e.2) := by
   have hcp := hpn.cos_pos
   have ho0 : o ≠ 0 := by rcases ho with h | h <;> rw [h] <;> norm_num
@@ -433,14 +435,14 @@ theorem count_convex (E : List (Coo ℝ × Coo ℝ)) (o : ℝ) (ho : o = 1 ∨ o
       rw [h0] at ex ey
       exact (hgen e he).1 (lon_eq_of_dir h1 h1n l hp.lon0 hp.lon1 s hs0 (by linarith) (by linarith))
     exact ⟨τ, s, t, lt_of_le_of_ne hs0 (Ne.symm hs1), lt_of_le_of_ne ht0 (Ne.symm ht1), ex, ey, ez⟩
-  · -- genericity
-    intro e he h0
-    apply hgc e he
-    have := dot_eq_lin hp hpn o e
-    rw [h0] at this
-    have : o * dot p (cross e.1 e.2) = 0 := by rw [this]; ring
-    rcases mul_eq_zero.mp this with h | h
-    · exact absurd h ho0
-    · exact h
+  · -- `p` is not on the boundary
+    intro hall e he
+    have h1 : ∀ e ∈ E, 0 ≤ o * dot p (cross e.1 e.2) := by
+      intro e he
+      rw [dot_eq_lin hp hpn]
+      exact mul_nonneg hcp.le (hall e he)
+    have := hnb h1 e he
+    rw [dot_eq_lin hp hpn] at this
+    exact (mul_pos_iff_of_pos_left hcp).mp this
 
 end Hpx.Sph
